@@ -12,6 +12,10 @@ CLAIMED = {
    technique="deterministic simulation: seeded operation/fault histories (failed writes, restarts for append, block copies) on simulated and real streams against a list-of-records reference model",
    text="Seeded histories over {create, write, failing write, flush, write_block from fastavro- and foreign-written donors, re-open for append with unrelated valid arguments, public writer() append} are applied to a BytesIO, a simulated append-mode file or a real 'a+b' file and to a reference model; after every flush and re-open the stream is read back and must equal the model exactly, header bytes unchanged. Sampling of an infinite history space: evidence, not proof.",
    note="trusted: the reference model (a Python list), refavro.normal_eq for the documented normalisation; pure-Python modules only"),
+ "C18": dict(cat="exploration", ref="DESIGN.md 4 (C18)",
+   technique="deterministic simulation: real threads under a seeded baton-passing scheduler pre-empting at CPython switch points (sys.monitoring) inside fastavro; oracle = solo run",
+   text="2-3 caller threads run seeded operation lists on distinct streams sharing parsed schema objects; a seeded scheduler (uniform / sticky / PCT) decides every context switch at CPython 3.12 switch points in fastavro code, one seed = one exactly repeatable interleaving; each task's values, bytes and exception classes must equal those of its solo run; deadlock, stall and step-cap are violations. Seeded search over schedules, not enumeration.",
+   note="trusted: sys.monitoring event delivery as a sound subset of real switch points (calls to C types emit no event); solo run as reference; CPython 3.12.1 with GIL; pure-Python modules only"),
 }
 
 NA = {
